@@ -82,14 +82,29 @@ def make_client():
 
 # ---------------------------------------------------------------- multiRef
 
+XSD_NS = "http://www.w3.org/2001/XMLSchema"
+XSI_NS = "http://www.w3.org/2001/XMLSchema-instance"
+TYPED = [False]       # encoded-style serialisers (Axis, .NET) put xsi:type on every value, the prefix declared on that very element
+
+
+def val(parent, tag, text, ty):
+    if TYPED[0]:
+        e = etree.SubElement(parent, tag, nsmap={"q%d" % (len(parent) + 1): XSD_NS})
+        e.set("{%s}type" % XSI_NS, "q%d:%s" % (len(parent), ty))
+    else:
+        e = etree.SubElement(parent, tag)
+    e.text = text
+    return e
+
+
 def leaf(tag, s, n, deep=False):
     e = etree.Element(tag)
-    etree.SubElement(e, "s").text = s
-    etree.SubElement(e, "n").text = str(n)
+    val(e, "s", s, "string")
+    val(e, "n", str(n), "int")
     if deep:
         d = etree.SubElement(e, "deep")          # a third level: reference chains result -> a -> leaf -> deep
-        etree.SubElement(d, "x").text = "X" + s
-        etree.SubElement(d, "y").text = str(n + 100)
+        val(d, "x", "X" + s, "string")
+        val(d, "y", str(n + 100), "int")
     return e
 
 
@@ -103,6 +118,7 @@ def mid(tag, i, nmore):
 
 
 def inline_result(rng):
+    TYPED[0] = rng.random() < 0.5
     r = etree.Element("result")
     r.append(mid("a", 1, rng.choice([0, 1, 2])))
     r.append(leaf("b", "B", 2))
@@ -184,6 +200,7 @@ def multiref_cases(ctx, res, client, pending):
             case = dict(kind="multiref", inline=etree.tostring(inline).decode(), outlined=list(sub), body=etree.tostring(body).decode())
             res.case(key=("mr", etree.tostring(inline), sub), nontrivial=True)
             res.count("multiref:outlined=%d" % len(sub))
+            res.count("multiref:%s" % ("locally-prefixed-xsi-type" if TYPED[0] else "untyped-values"))
             Script.content = envelope_bytes(copy.deepcopy(body))
             try:
                 got = canon_value(client.service.get("x"))
@@ -290,6 +307,19 @@ def xop_cases(ctx, res, client, pending):
                         res.known_hits[known] = res.known_hits.get(known, 0) + 1
                     res.failures.append(f)
                     continue
+                # the same XOP reply with one more MIME part that nothing refers to: still the inline value
+                if not known and n % 3 == 0:
+                    Script.ctype, Script.content = mime_body(xop, [(cid, "application/octet-stream", te, raw, None),
+                                                                   ("unreferenced@h.example", "application/octet-stream", "binary", b"EXTRA", None)])
+                    res.count("xop:extra-unreferenced-part")
+                    try:
+                        got2 = client.service.bin("x")
+                        got2 = canon_value(got2) if not hasattr(got2, "attachments") else "MessagePack(root=%r)" % (canon_value(got2.root),)
+                        if got2 != base:
+                            res.failures.append(dict(what="XOP reply with an additional unreferenced part decodes differently from the inline reply",
+                                                     case=dict(case, kind="xop-extra-part"), expected=str(base)[:200], got=str(got2)[:200]))
+                    except Exception as e:  # noqa
+                        res.failures.append(dict(what="XOP reply with an additional unreferenced part raised %s: %s" % (type(e).__name__, e), case=dict(case, kind="xop-extra-part")))
                 # plain attachment: returned byte-for-byte with id, type, location
                 plain = ('<e:Envelope xmlns:e="%s"><e:Body><r:binResponse xmlns:r="urn:rpc"><result><name>f</name><data>%s</data></result></r:binResponse></e:Body></e:Envelope>'
                          % (ENV, base64.b64encode(b"inline").decode())).encode()
